@@ -152,7 +152,11 @@ def prepare(case, d, variant="plain"):
                 sf = os.path.join(d, "sort.txt")
                 with open(sf, "wb") as fh:
                     for i, p in enumerate(files):
-                        fh.write(b"%d [dont_fragment] \"%s\"\n" % (-i, p))
+                        if case.get("profile") == "frag_readback":
+                            # the duplicate tail is kept although it is found again: the comparison reads the fragment block back
+                            fh.write(b"%d [dont_deduplicate] \"%s\"\n" % (i, p))
+                        else:
+                            fh.write(b"%d [dont_fragment] \"%s\"\n" % (-i, p))
                 args += ["-S", sf]
         ctx["args"] = args
         return ctx
